@@ -330,8 +330,9 @@ def gen_program(rng, crate, index, size):
             pad2 = pad + "    "
         else:
             pad2 = pad
+        ignore_text = rng.choice(["#[ignore]", "#[ignore]", '#[ignore = "needs network"]', '#[ignore = ""]'])   # with or without a reason
         if ignore_attr and rng.random() < 0.5:
-            body.append("%s#[ignore]" % pad2)
+            body.append("%s%s" % (pad2, ignore_text))
             ignore_done = True
         else:
             ignore_done = False
@@ -339,7 +340,7 @@ def gen_program(rng, crate, index, size):
         b.col = len(pad2) + 1
         body.append("%s%s" % (pad2, attr))
         if ignore_attr and not ignore_done:
-            body.append("%s#[ignore]" % pad2)
+            body.append("%s%s" % (pad2, ignore_text))
         body.append("%s%sfn %s%s(%s) { %s }" % (pad2, ext, ident, sig_generics, fn_args, body_stmt))
         if nested:
             body.append("%s}" % pad)
@@ -370,7 +371,7 @@ def gen_program(rng, crate, index, size):
             ln = line_no()
             body.append("%s%s" % (pad, attr))
             if ignore_attr:
-                body.append("%s#[ignore]" % pad)
+                body.append("%s%s" % (pad, rng.choice(["#[ignore]", '#[ignore = "slow"]'])))
             g = TG.Group(list(modpath), name, display, P.file, ln, len(pad) + 1, opts_to_spec(exp_opts) if (exp_opts or ignore_attr) else None)
             P.spec.items.append(g)
             P.dump_expect.append(("G", display, name, "::".join(modpath), ln, len(pad) + 1, exp_opts if (exp_opts or ignore_attr) else None, "group"))
